@@ -759,6 +759,7 @@ class Model:
                     elif not plus and "r" in u.modes:
                         u.modes.discard("r")
                         changes.append(("-", "r"))
+                        e.need("484", p0=u.nick)
                 elif ch in "oO":
                     if plus:
                         # operator status comes only from OPER: never granted here
@@ -835,6 +836,13 @@ class Model:
         text = cmd["text"]
         if notice:
             e.only = set()
+        if not all(valid_msg_target(t) for t in cmd["targets"]):
+            # refused as a whole by the syntax check (ERROR line): no target accepts it
+            e.unspec_replies = True
+            e.only = None
+            e.shape = verb.lower() + ":bad-target"
+            e.cover.append((verb, "bad-target"))
+            return e
         seen = set()
         kinds = []
         away_targets = set()
@@ -1260,10 +1268,30 @@ def split_status(target):
     while i < n and target[i] in "~&@%+":
         i += 1
     if i < n and target[i] == "#":
+        if i + 1 == n:
+            return "", None  # a bare '#' after prefixes names no channel: the whole word is taken as a nickname
         return target[:i], target[i:]
     if i > 0 and target[i - 1] == "&" and i < n:
         return target[:i - 1], target[i - 1:]
     return "", None
+
+
+def valid_msg_target(t):
+    """the server's syntax check of one PRIVMSG/NOTICE target (a failing target refuses the whole command):
+    a user name (no blank, '.', ':', ',', no leading channel sigil) or status prefixes followed by a channel
+    name of at least two characters"""
+    if t and not any(ch.isspace() for ch in t) and t[0] not in "#&" and not any(ch in t for ch in ".:,"):
+        return True
+    if not t or ":" in t or "," in t:
+        return False
+    last_amp = False
+    for i, ch in enumerate(t):
+        if ch == "#":
+            return i + 1 < len(t)
+        if ch not in "~@%+&":
+            return last_amp
+        last_amp = ch == "&"
+    return False
 
 
 def _chain(a, b):
